@@ -73,8 +73,11 @@ Init ==
 AddStep ==
     /\ mode = "trav" /\ Len(steps) < MaxSteps
     /\ \E st \in Steps :
-          \* the legacy index syntax cannot be chained directly (spec: "does not support chaining")
-          /\ ~(st.k = "legacy" /\ Len(steps) > 0 /\ steps[Len(steps)].k = "legacy")
+          \* the legacy index syntax cannot be chained directly (spec: "does not support chaining"): a
+          \* text with two legacy steps in a row is outside the grammar (`t.0.2` scans 0.2 as ONE number);
+          \* such vectors are generated once, for the implication "accepted by the stand-alone traversal
+          \* parser => accepted, with the same meaning, by the expression parser", and not extended further
+          /\ ~(Len(steps) > 1 /\ steps[Len(steps)].k = "legacy" /\ steps[Len(steps) - 1].k = "legacy")
           /\ steps' = Append(steps, st)
           /\ pred' = TravResult(root, steps')
     /\ UNCHANGED <<mode, root, ty, d>>
